@@ -51,6 +51,14 @@ pub fn expand_self<T: VisitableMut + Clone>(input: &T, to: &Type) -> T {
     input
 }
 
+/// Returns `ty` in a form that can follow `&`: `A + B` (with or without `dyn` / `impl`) must be parenthesized.
+pub fn ref_target(ty: &Type) -> Type {
+    match ty {
+        Type::TraitObject(_) | Type::ImplTrait(_) => parse_quote!((#ty)),
+        _ => ty.clone(),
+    }
+}
+
 pub struct GenericParamSet {
     idents: HashSet<Ident>,
 }
